@@ -31,6 +31,10 @@ def obligations(tier):
     for i in ([18, 5] if tier == "quick" else range(NI)):
         obs.append(Ob(f"C02.drv/normalize_names/item1={i}", "drv", "c_items", {"VF_I1": i, "VF_NAMES": 0, "VF_NORM": 1}, t, FN_DRV,
                       f"normalize_names=True: item #{i} + any second item; a constraint named `key` keeps its name without the delimiters"))
+    for i in ([9, 10, 12, 17] if tier == "quick" else range(NI)):
+        obs.append(Ob(f"C02.drv/schema-qualified-table/item1={i}", "drv", "c_items", {"VF_I1": i, "VF_NAMES": 0, "VF_TSCHEMA": 1}, t, FN_DRV,
+                      f"the table is written shop.t: item #{i} + any second item - referenced schema / table / column exactly as written (an unqualified referenced table has schema None), "
+                      "the table's own schema reported once, on the table"))
     obs += lex_obs("C02", "c_kw", ["col_later", "col_after_sized"], tier, "lex")
     obs += lex_obs("C02", "c_name", ["pk_list_first", "pk_list_later", "uniq_list_first", "fk_list_first", "ref_list_first"], tier, "lexname")
     return obs
